@@ -272,6 +272,9 @@ def z3(chk, repo, tier="quick"):
         M = t.syms.get("Mach_number")
         k = [s for s in extra if s.name.startswith("cfg:") and "k_lam" in s.name]
         others = extra - set(k) - ({M} if M is not None else set())
+        if any(str(s_).startswith("opq:") for s_ in others):
+            chk.undecided("Z3", key, c.where, "the friction coefficient contains a value whose defining expression was not extracted (%s)" % sorted(str(s_) for s_ in others if str(s_).startswith("opq:")), algebraic=True)
+            continue
         if others:
             chk.violation("Z3", key, c.where, "the per-panel friction coefficient depends on %s besides Re_c, M and k_lam: %s" % (sorted(str(s) for s in others), _short(cdR)), algebraic=True)
             continue
